@@ -10,7 +10,7 @@
 From Coq Require Import List.
 From PV Require Import Lib.Py Model.Graph Model.GraphExpr.
 From PV Require Import Proofs.C01Base Proofs.C01Inv Proofs.C01 Proofs.C05.
-From PV Require Import Proofs.C01Weak Proofs.C05Weak.
+From PV Require Import Proofs.C01Weak Proofs.C05Weak Proofs.C05WeakMore.
 Import ListNotations.
 
 (* after ANY two histories of Build/Evaluate operations, in any order,
@@ -70,3 +70,34 @@ Theorem C05_order_weak : forall W sem, wf W -> sem_nonblank_weak W sem -> stored
     /\ snd (evaluate W sem (fst (run W sem (init W) h1)) n) = spec W sem (wb_inp0 W) n.
 Proof. exact order_weak. Qed.
 Print Assumptions C05_order_weak.
+
+(* the other three theorems under the weak condition (Proofs/C05WeakMore.v, by
+   transfer from the theorems above) *)
+Theorem C05_order_nodata_weak : forall W sem, wf W -> sem_nonblank_weak W sem ->
+  (forall n, wb_stored W n = VNone) ->
+  forall h1 h2 n, Forall (be_op W) h1 -> Forall (be_op W) h2 -> n < wb_n W ->
+    snd (evaluate W sem (fst (run W sem (init W) h1)) n)
+    = snd (evaluate W sem (fst (run W sem (init W) h2)) n).
+Proof. exact order_nodata_weak. Qed.
+Print Assumptions C05_order_nodata_weak.
+
+Theorem C05_repeat_weak : forall W sem, wf W -> sem_nonblank_weak W sem -> stored_ok W sem ->
+  forall s n, Inv W sem s -> n < wb_n W ->
+    let s1 := fst (evaluate W sem s n) in
+    let v1 := snd (evaluate W sem s n) in
+    let s2 := fst (evaluate W sem s1 n) in
+    let v2 := snd (evaluate W sem s1 n) in
+    v2 = v1 /\ st_built s2 = st_built s1 /\ forall m, st_cache s2 m = st_cache s1 m.
+Proof. exact repeat_weak. Qed.
+Print Assumptions C05_repeat_weak.
+
+Theorem C05_path_weak : forall W sem, wf W -> sem_nonblank_weak W sem -> stored_ok W sem ->
+  forall s r cols i j, Inv W sem s -> r < wb_n W -> wb_input W r = false ->
+    (forall vals, sem r vals = sem_formula (FRange cols) vals) ->
+    0 < cols -> j < cols -> i * cols + j < length (wb_deps W r) ->
+    let cell := nth (i * cols + j) (wb_deps W r) 0 in
+    tuple_at (snd (evaluate W sem s r)) i j = snd (evaluate W sem s cell)
+    /\ tuple_at (snd (evaluate W sem s r)) i j
+       = snd (evaluate W sem (fst (evaluate W sem s r)) cell).
+Proof. exact path_weak. Qed.
+Print Assumptions C05_path_weak.
